@@ -24,6 +24,7 @@ const VALS: [f32; 7] = [0.0, 1.0, -1.0, 0.5, 3.0, -1000.0, 1e-3];
 
 fn ts() -> Vec<f32> {
     let mut v: Vec<f32> = (0..=64).map(|k| k as f32 / 64.0).collect();
+    v.extend((1..60).map(|k| k as f32 / 60.0 + 0.003));
     v.extend([-1.0, -0.0, -1e-30, 1.0000001, 2.0, f32::NAN, f32::INFINITY, f32::NEG_INFINITY, 1e-30, 0.99999994, 0.1, 0.7]);
     v
 }
@@ -181,7 +182,7 @@ fn run_spline(cfg: &Cfg) -> ! {
         check_cubic::<f32>(&c, r);
     }));
     // pooled polygons for the vector / point / colour types
-    let pool: u64 = if quick { 400 } else { 4000 };
+    let pool: u64 = if quick { 1200 } else { 12000 };
     rep.merge(par_range(cfg, pool, |i, r| {
         let c = |dim: usize| -> [Vec<f32>; 4] { std::array::from_fn(|k| (0..dim).map(|d| VALS[((i as usize) / 7usize.pow((k * 2 + d % 2) as u32 % 5) + k * 3 + d * 5 + i as usize) % 7]).collect()) };
         check_cubic::<Vec2>(&c(2), r);
@@ -189,7 +190,7 @@ fn run_spline(cfg: &Cfg) -> ! {
         check_cubic::<Point2>(&c(2), r);
         check_cubic::<Color3f>(&c(3), r);
     }));
-    let seeds: u64 = if quick { 5 } else { 21 };
+    let seeds: u64 = if quick { 12 } else { 60 };
     rep.merge(par_range(cfg, 8 * seeds, |i, r| {
         let (n, seed) = ((i % 8) as usize + 1, (i / 8) as usize);
         check_spline::<f32>(n, seed, r);
@@ -216,11 +217,15 @@ fn run_spline(cfg: &Cfg) -> ! {
 
 fn circ_diff(a: f64, b: f64) -> f64 { let d = (a - b).rem_euclid(std::f64::consts::TAU); d.min(std::f64::consts::TAU - d) }
 
+fn check_angle_deg(d: f32, r: &mut Report) { check_angle_impl(d as f64, r) }
 fn check_angle(k: i32, r: &mut Report) {
     // k indexes the angle lattice
     let deg: f64 = if k.abs() <= 480 { k as f64 * 7.5 } else { [1e-6f64, 1e4, 1e6, -1e4, -1e6, 0.1, 33.3, -123.456][(k.abs() as usize - 481) % 8] * 180.0 / std::f64::consts::PI };
+    check_angle_impl(deg, r)
+}
+fn check_angle_impl(deg: f64, r: &mut Report) {
     let degf = deg as f32;
-    let case = || obj! {"kind" => "angle", "k" => k};
+    let case = || obj! {"kind" => "angle", "deg" => fbits(degf)};
     let key = |cl: &str| format!("{cl}|deg={degf:e}");
     for d in [degf, f32::from_bits(degf.to_bits().wrapping_add(1)), f32::from_bits(degf.to_bits().wrapping_sub(1))] {
         if !d.is_finite() { continue; }
@@ -316,6 +321,7 @@ fn check_polar_first(rr: f32, azd: f32, altd: f32, r: &mut Report) {
 fn run_angle(cfg: &Cfg) -> ! {
     let mut rep = Report::new();
     rep.merge(par_range(cfg, 2 * 488 + 1, |i, r| check_angle(i as i32 - 488, r)));
+    rep.merge(par_range(cfg, 1441, |i, r| check_angle_deg(i as f32 * 0.5 - 360.0 + 0.125, r)));
     let mags = [1e-9f32, 1e-6, 1.0, 1e4];
     let n2: i64 = if cfg.quick() { 13 } else { 41 };
     rep.merge(par_range(cfg, (n2 * n2) as u64 * 4, |i, r| {
@@ -361,7 +367,7 @@ fn main() {
                     match c.get("type").and_then(|j| j.as_str()).unwrap_or("") { "f32" => check_spline::<f32>(g("n"), g("seed"), &mut rr), "Vec2" => check_spline::<Vec2>(g("n"), g("seed"), &mut rr), "Vec3" => check_spline::<Vec3>(g("n"), g("seed"), &mut rr), "Point2" => check_spline::<Point2>(g("n"), g("seed"), &mut rr), _ => check_spline::<Color3f>(g("n"), g("seed"), &mut rr) }
                     for (k, v) in rr.viols { r.violation(k, v.what, v.case); }
                 }
-                "angle" => check_angle(c.get("k").unwrap().as_i64().unwrap() as i32, r),
+                "angle" => check_angle_impl(parse_fbits(c.get("deg").unwrap()).unwrap() as f64, r),
                 "vec2" => check_vec2(f("x"), f("y"), r),
                 "vec3" => check_vec3(f("x"), f("y"), f("z"), r),
                 "polar" => check_polar_first(f("r"), f("az"), f("alt"), r),
